@@ -18,7 +18,8 @@ sed -i "s#path = \"/repo\"#path = \"$SV/repo\"#" $SV/verif/harness/Cargo.toml
 props=${@:-C01 C02 C03 C04 C05 C06 C07 C08 C09 C10 C11 C12 C13 C14 C15 C16 C17 C18 C19 C20}
 caught=""
 for p in $props; do
-  full=$(cd $SV/verif && VERIF_SKIP_PROOF=1 ./check $p quick 2>&1; echo "EXIT=$?")
+  skip=1; [ $p = C06 ] && skip=     # C06 regenerates Gen/Frontier.lean from the tree: its proof obligation depends on /repo
+  full=$(cd $SV/verif && VERIF_SKIP_PROOF=$skip ./check $p quick 2>&1; echo "EXIT=$?")
   out=$(echo "$full" | grep -E "^VIOLATION|^KNOWN|harness does not build" | head -3 | tr '\n' ';')
   # a check that could not run (exit 2) must never look like "not caught"
   echo "$full" | grep -q "EXIT=2" && out="COULD-NOT-RUN $(echo "$full" | tail -4 | tr '\n' ' ' | cut -c1-300);$out"
